@@ -444,7 +444,7 @@ func main() {
 	sb.WriteString("(* GENERATED by harness/cmd/facts_looplocks from pkg/drivers/cdp/events/loop.go — do not edit.\n")
 	sb.WriteString("   One row per access to the listener table (or handler call) in a method of Loop:\n")
 	sb.WriteString("   method, kind, mode of Loop.mu held there, source line. *)\n")
-	sb.WriteString("From Ferret Require Import Loop.\nLocal Open Scope string_scope.\n")
+	sb.WriteString("From Ferret Require Import Base Loop.\nLocal Open Scope string_scope.\n")
 	sb.WriteString("Definition table : list lock_access := [\n")
 	for i, a := range table {
 		sep := ";"
